@@ -14,3 +14,51 @@ package dag
 //@ func (*DirectedTargetGraph).GetNodes(g) (r)
 //@   pure
 //@   ensures [field] r == g.nodes
+
+// C20: `deps -t` / `rdeps -t` print exactly the transitive dependency (dependant) sets, each label once.
+//@ func (*DirectedTargetGraph).GetAncestors(g, target) (r)
+//@   pure
+//@   requires [abs] absEdges(g) && endpointsAreNodes(g) && isNode(target)
+//@   ensures [covers_reach] forall a model.BuildNode :: {reach(g, a, target)} reach(g, a, target) ==> inNodes(r, a)
+//@   ensures [only_reach] forall i int :: {r[i]} 0 <= i && i < len(r) ==> reach(g, r[i], target)
+//@   ensures [each_once] noDup(r)
+
+//@ func (*DirectedTargetGraph).collectAncestors(g, target) (r)
+//@   pure
+//@   requires [abs] absEdges(g) && endpointsAreNodes(g) && isNode(target)
+//@   ensures [covers_reach] forall a model.BuildNode :: {reach(g, a, target)} reach(g, a, target) ==> inNodes(r, a)
+//@   ensures [only_reach] forall i int :: {r[i]} 0 <= i && i < len(r) ==> reach(g, r[i], target)
+//@ loop #1
+//@   invariant [deps_are_edges] forall j int :: {ranged()[j]} 0 <= j && j < len(ranged()) ==> edge(g, ranged()[j], target)
+//@   invariant [covered] forall j int :: {ranged()[j]} 0 <= j && j <= rangeindex ==> inNodes(ancestors, ranged()[j]) &&
+//@        (forall a model.BuildNode :: {reach(g, a, ranged()[j])} reach(g, a, ranged()[j]) ==> inNodes(ancestors, a))
+//@   invariant [only] forall i int :: {ancestors[i]} 0 <= i && i < len(ancestors) ==> reach(g, ancestors[i], target)
+
+//@ func (*DirectedTargetGraph).GetDescendants(g, target) (r)
+//@   pure
+//@   requires [abs] absOutEdges(g) && endpointsAreNodes(g) && isNode(target)
+//@   ensures [covers_reach] forall a model.BuildNode :: {reach(g, target, a)} reach(g, target, a) ==> inNodes(r, a)
+//@   ensures [only_reach] forall i int :: {r[i]} 0 <= i && i < len(r) ==> reach(g, target, r[i])
+//@   ensures [each_once] noDup(r)
+
+//@ func (*DirectedTargetGraph).collectDescendants(g, target) (r)
+//@   pure
+//@   requires [abs] absOutEdges(g) && endpointsAreNodes(g) && isNode(target)
+//@   ensures [covers_reach] forall a model.BuildNode :: {reach(g, target, a)} reach(g, target, a) ==> inNodes(r, a)
+//@   ensures [only_reach] forall i int :: {r[i]} 0 <= i && i < len(r) ==> reach(g, target, r[i])
+//@ loop #1
+//@   invariant [deps_are_edges] forall j int :: {ranged()[j]} 0 <= j && j < len(ranged()) ==> edge(g, target, ranged()[j])
+//@   invariant [covered] forall j int :: {ranged()[j]} 0 <= j && j <= rangeindex ==> inNodes(descendants, ranged()[j]) &&
+//@        (forall a model.BuildNode :: {reach(g, ranged()[j], a)} reach(g, ranged()[j], a) ==> inNodes(descendants, a))
+//@   invariant [only] forall i int :: {descendants[i]} 0 <= i && i < len(descendants) ==> reach(g, target, descendants[i])
+
+// the same set of nodes, each once
+//@ func uniqueNodes(nodes) (r)
+//@   pure
+//@   ensures [same_set] (forall x model.BuildNode :: {inNodes(nodes, x)} inNodes(nodes, x) ==> inNodes(r, x)) && (forall i int :: {r[i]} 0 <= i && i < len(r) ==> inNodes(nodes, r[i]))
+//@   ensures [each_once] noDup(r)
+//@ loop #1
+//@   invariant [seen_iff_kept] forall x model.BuildNode :: {has(seen, x)} {inNodes(unique, x)} has(seen, x) && seen[x] <==> inNodes(unique, x)
+//@   invariant [processed_kept] forall j int :: {nodes[j]} 0 <= j && j <= rangeindex ==> inNodes(unique, nodes[j])
+//@   invariant [kept_from_input] forall i int :: {unique[i]} 0 <= i && i < len(unique) ==> inNodes(nodes, unique[i])
+//@   invariant [each_once] noDup(unique)
